@@ -370,7 +370,9 @@ def gen_case(rnd, ctx, maxlen):
     if not case["ops"]:
         case["ops"].append(["Set", 0, classes[0]["traits"][1][0], 5])
     ctx.count("history-length:%02d" % len(case["ops"]))
-    if rnd.random() < 0.3:
+    if rnd.random() < 0.3 and not inner:
+        # (not together with a deferring reference: its own handlers observe object VALUES, and whether a swap between
+        #  equal objects notifies them is the comparison mode's business, C02)
         # the classes of this case define a value-style __eq__ (equal class and equal stored plain values): swapping
         # the delegate for a DISTINCT object that compares EQUAL must still move the forwarder to the new delegate
         case["eq"] = True
@@ -436,6 +438,12 @@ def corpus():
                    ops=[["Set", 0, [X], 5], ["Set", 3, [X], 9], ["Set", 0, [X], 6], ["Del", 3, [X]], ["Set", 0, [X], 7],
                         ["Set", 2, [REF], {"obj": 1}], ["Set", 1, [X], 8], ["Set", 3, [REF], {"obj": 0}], ["Set", 0, [X], 11],
                         ["Set", 3, [R], 20], ["Set", 0, [R], 21], ["Del", 3, [R]], ["Set", 0, [R], 22], ["Set", 3, [Y], 12]]))
+    # sixth wave (C11-w2): the reference is a PROPERTY (computed, never in __dict__ under its own name)
+    cs.append(dict(classes=[par_a, dict(ch, propref=True)], objs=objs,
+                   ops=[["Set", 0, [P_, X], 5], ["Set", 2, [X], 9], ["Set", 0, [P_, X], 6], ["Del", 2, [X]],
+                        ["Set", 0, [P_, X], 7], ["Set", 2, [PARENT], {"obj": 1}], ["Set", 1, [P_, X], 8],
+                        ["Set", 0, [P_, X], 10], ["Set", 2, [A], 3], ["Set", 1, [A], 4], ["Del", 2, [A]], ["Set", 1, [A], 6],
+                        ["Set", 2, [PARENT], 7]]))
     # fifth wave: delegate swapped for a distinct object that compares equal (value-style __eq__ on the classes): the
     # forwarder follows the current delegate, the previous one is no longer listened to
     cs.append(dict(classes=[par_a, ch], objs=objs, eq=True,
